@@ -41,6 +41,7 @@ for _f in sorted(glob.glob(str(VERIF / "harness" / "manifest_entries" / "*.json"
     CHECKS.update(json.load(open(_f)))
 
 # tie paragraphs (and one wording correction) for the entries that live in the CHECKS table above
+CHECKS["C07"]["tie"] = CHECKS["C07"]["tie"] + " " + json.load(open(VERIF / "harness" / "manifest_tie_add.json"))["C07"]
 for _k, _v in json.load(open(VERIF / "harness" / "manifest_ties_taus.json")).items():
     CHECKS[_k]["tie"] = _v["tie"]
     if "text_replace" in _v:
